@@ -540,6 +540,8 @@ class Interp:
                             return ('field', o, r['name'], n)
         if k in ('CXXOperatorCallExpr', 'CXXMemberCallExpr', 'CallExpr'):
             return ('val', self.call(n, env))
+        if k == 'ArraySubscriptExpr':
+            return ('val', self.expr(n, env))          # element of a built-in array, read-only use
         if k == 'ConditionalOperator':
             ch = children(n)
             c = self.truth(self.expr(ch[0], env), ch[0])
@@ -718,6 +720,19 @@ class Interp:
             r = self.convert(r, a.w, a.signed, n)
             self.store(lv, r, env)
             return r
+        if k == 'InitListExpr':
+            return Vec([self.expr(c, env) for c in ch if c.get('kind') != 'array_filler'])
+        if k == 'ArraySubscriptExpr':
+            base = self.expr(ch[0], env)
+            iv = self.expr(ch[1], env)
+            if isinstance(base, Vec):
+                if not (isinstance(iv, IV) and iv.concrete()):
+                    raise NeedSplit(None, 'array index not concrete at %s' % pos(n))
+                if not 0 <= iv.lo < len(base.items):
+                    self.ub_event('array-index-out-of-range', n)
+                    raise Thrown('out-of-range array access')
+                return base.items[iv.lo]
+            raise AnalysisBroken('subscript of %r at %s' % (base, pos(n)))
         if k in ('CallExpr', 'CXXMemberCallExpr', 'CXXOperatorCallExpr'):
             return self.call(n, env)
         if k == 'CXXThrowExpr':
